@@ -33,41 +33,8 @@ B = "wavephysics/balance/"
 WI = B + "wind_inversion.py::"
 
 # ------------------------------------------------------------------------------------------------ the root finder
-FZ = _z3.Function("balance_F", _T.RealS, _T.RealS)
-
-
-class FnModel:
-    """the function handed to the solver: an arbitrary real function of its first argument (trailing arguments fixed)"""
-
-    def __call__(self, interp, st, args, kwargs):
-        return FZ(_T.to_z3(_T.to_real(st.deref(args[0]))))
-
-
-def _p_solver(error_on_max_iter, aitken):
-    def p(mk):
-        return {"function": FnModel(), "guess": mk.real("guess"), "function_arguments": (), "hard_bounds": (0, _T.INF),
-                "max_iterations": mk.int("max_iterations"), "aitken_acceleration": aitken, "atol": mk.real("atol"), "rtol": mk.real("rtol"),
-                "numerical_stepsize": mk.real("h"), "verbose": False, "error_on_max_iter": error_on_max_iter,
-                "relative_stepsize": mk.bool("relative_stepsize"), "name": "", "under_relaxation": mk.real("under_relaxation")}
-    return p
-
-
-def _solver_inv(ns):
-    it, rb = ns.iterates, ns.root_bounds
-    return And(it[0] >= 0, it[1] >= 0, it[2] >= 0, rb[0] >= 0, rb[1] >= 0)
-
-
-SOLVER_INST = [("raise_on_max_iter,aitken", _p_solver(True, True)), ("raise_on_max_iter,plain", _p_solver(True, False)),
-               ("return_on_max_iter,aitken", _p_solver(False, True))]
-newton = Contract(
-    B + "solvers.py::numba_newton_raphson", instances=SOLVER_INST,
-    requires=[("guess_nonnegative", lambda a: a.guess >= 0), ("tolerances", lambda a: And(a.atol > 0, a.rtol > 0, a.numerical_stepsize > 0))],
-    ensures=[("returned_value_within_hard_bounds", lambda a, r: r >= 0)],
-    raises={"ValueError": lambda a: True},
-    options={"loop_invariants": {lab: {1: LoopContract(invariant=[("iterates_and_bracket_nonnegative", _solver_inv)])} for lab, _ in SOLVER_INST},
-             "result": lambda mk, a: mk.real("u_root"), "may_raise": ("ValueError",), "feasibility": "abstract", "max_paths": 6000, "merge_ifs": True},
-)
-newton.loops = {1: LoopContract(invariant=None)}
+# the exit contract of numba_newton_raphson is shared with C10: contracts/newton_common.py (verified there once, for an arbitrary function)
+from contracts.newton_common import newton, newton_at_call, FnModel, FZ, _conv_test as _newton_conv_test
 
 
 # ------------------------------------------------------------------------------------------------ the balance function F
